@@ -451,30 +451,6 @@ def _any():
     return AnyElement
 
 
-<<<<<<< HEAD
-def finding_pi_text():
-    from xsdata.formats.dataclass.parsers import XmlParser
-    from xsdata.formats.dataclass.parsers.handlers import LxmlEventHandler, XmlEventHandler
-
-    doc = b"<r>a<?pi x?>b</r>"
-    n = XmlParser(handler=XmlEventHandler).from_bytes(doc, _any()).children
-    l = XmlParser(handler=LxmlEventHandler).from_bytes(doc, _any()).children
-    return n != l, f"native {n!r} lxml {l!r}"
-=======
-def finding_native_cr():
-    from lxml import etree
-
-    from xsdata.formats.dataclass.serializers import XmlSerializer
-    from xsdata.formats.dataclass.serializers.writers import LxmlEventWriter, XmlEventWriter
-
-    AnyElement = _any()
-    o = AnyElement(qname="r", children=[AnyElement(qname="a", text="x\ry")])
-    out = {}
-    for name, w in (("native", XmlEventWriter), ("lxml", LxmlEventWriter)):
-        xml = XmlSerializer(writer=w).render(o)
-        out[name] = etree.fromstring(xml.encode()).find("a").text
-    return out["native"] != out["lxml"], repr(out)
->>>>>>> c09c
 
 
 def finding_indent_mixed():
@@ -494,11 +470,6 @@ def finding_indent_mixed():
 
 
 FINDINGS = {
-<<<<<<< HEAD
-    "C08-lxml-pi-text": finding_pi_text,
-=======
-    "C08-native-cr": finding_native_cr,
->>>>>>> c09c
     "C08-indent-mixed": finding_indent_mixed,
 }
 
